@@ -1,7 +1,7 @@
 """Reads the label / block / variable skeleton of every rule function back from a generated parser
 (gofmt-formatted Go), in the notation of the model's `emit` command (Model/Emit.v):
   s statement(s)   Ln label   Jn goto   Cn conditional goto   Sn/Rn save / restore of position+tokenIndex
-  Pn positionN := position   Un use of positionN   b break   { } block   sw case dflt end
+  Pn positionN := position   Un use of positionN   Mn memoize(rule, positionN, tokenIndexN, ..)   b break   { } block   sw case dflt end
 Slots of the rule table that hold nil are reported as "nil"."""
 import re
 
@@ -11,6 +11,7 @@ RE_GOTO = re.compile(r"^goto l(\d+)$")
 RE_SAVE = re.compile(r"^position(\d+), tokenIndex(\d+) := position, tokenIndex$")
 RE_RESTORE = re.compile(r"^position, tokenIndex = position(\d+), tokenIndex(\d+)$")
 RE_SAVEP = re.compile(r"^position(\d+) := position$")
+RE_MEMO = re.compile(r"^memoize\(\d+, position(\d+), tokenIndex(\d+), (?:true|false)\)$")
 RE_USEP = re.compile(r"^(?:add\(rule\w+, position(\d+)\)|begin := position(\d+))$")
 
 
@@ -73,6 +74,9 @@ def skeletons(src):
                 m = RE_SAVEP.match(s)
                 if m:
                     toks.append("P" + m.group(1)); continue
+                m = RE_MEMO.match(s)
+                if m and m.group(1) == m.group(2):
+                    toks.append("M" + m.group(1)); continue
                 m = RE_USEP.match(s)
                 if m:
                     toks.append("U" + (m.group(1) or m.group(2))); continue
